@@ -121,7 +121,22 @@ func execRace(c fw.Case) (string, *fw.OracleFailure) {
 				send(0x0002, nil)
 				steps := 2 + r.Intn(6)
 				for s := 0; s < steps; s++ {
-					switch r.Intn(10) {
+					switch r.Intn(11) {
+					case 10: // a caller re-sends its ActiveMessage object right after the first call was answered: the second call
+						// is being written while the timer goroutine of the first is still asleep, and is pending when that timer fires
+						_ = srv.Command(fmt.Sprintf("sendtwice %s %s %d - %d", nextTag(), key, 0x8104, 150))
+						answered := 0
+						for dl := time.Now().Add(120 * time.Millisecond); answered < 1 && time.Now().Before(dl); {
+							for _, f := range cl.ReadFrames(0, 5*time.Millisecond) {
+								m := jt808.NewJTMessage()
+								if m.Decode(f) == nil && m.Header.ID == 0x8104 {
+									ps := m.Header.SerialNumber
+									send(0x0001, []byte{byte(ps >> 8), byte(ps), 0x81, 0x04, 0})
+									answered++
+								}
+							}
+						}
+						time.Sleep(220 * time.Millisecond)
 					case 0, 1: // burst of ordinary messages
 						for k := 0; k < 1+r.Intn(5); k++ {
 							switch r.Intn(4) {
@@ -166,6 +181,10 @@ func execRace(c fw.Case) (string, *fw.OracleFailure) {
 					case 3, 4: // platform commands, short or long time-out, from a caller goroutine
 						for k := 0; k < 1+r.Intn(3); k++ {
 							to := []int{30, 80, 400, 3000}[r.Intn(4)]
+							if r.Chance(25) { // a caller that re-sends its ActiveMessage object as soon as the first call returned
+								_ = srv.Command(fmt.Sprintf("sendtwice %s %s %d - %d", nextTag(), key, 0x8104, []int{400, 3000}[r.Intn(2)]))
+								continue
+							}
 							_ = srv.Command(fmt.Sprintf("send %s %s %d - %d", nextTag(), key, 0x8104, to))
 						}
 					case 5: // answer whatever command frames have arrived
